@@ -237,7 +237,12 @@ func (g *gen) pick(t ty, writable bool) *vr {
 	if len(c) == 0 {
 		return nil
 	}
-	return c[g.r.Intn(len(c))]
+	v := c[g.r.Intn(len(c))]
+	if writable && v.global && g.cur != nil {
+		// writable picks are assignment targets
+		g.cur.impure = true
+	}
+	return v
 }
 
 // ---------------------------------------------------------------- integer expressions
@@ -1987,9 +1992,17 @@ func (g *gen) genFunc(p fnPlan) {
 		gv := g.pickGlobalInt()
 		g.w("defer func() {")
 		g.w("\tif r := recover(); r != nil {")
-		if gv != nil {
+		if gv != nil && g.r.Bool() {
 			g.w("\t\t%s = (%s + %d) %% %d", gv.name, gv.name, 1+g.r.Intn(9), gv.bound+1)
-			f.impure = true
+		} else {
+			g.w("\t\tnote(%d)", 1+g.r.Intn(8))
+		}
+		f.impure = true
+		if g.r.Bool() {
+			// a second recover returns nil
+			g.w("\t\tif r2 := recover(); r2 != nil {")
+			g.w("\t\t\tnote(9)")
+			g.w("\t\t}")
 		}
 		g.w("\t}")
 		g.w("}()")
@@ -2018,6 +2031,14 @@ func (g *gen) genFunc(p fnPlan) {
 			g.w("defer note(%d)", 1+g.r.Intn(8))
 		}
 		f.impure = true
+	}
+	if p.recovers && len(f.params) > 0 && f.params[0].t == tInt && g.r.Bool() {
+		// a panic at statement level, recovered in this very frame
+		g.f("explicit-panic")
+		f.mayPanic = true
+		g.w("if %s%%%d == %d {", f.params[0].name, 3+g.r.Intn(4), g.r.Intn(3))
+		g.w("\tpanic(\"guard\")")
+		g.w("}")
 	}
 	if p.recursive {
 		// bounded descent on the first parameter
